@@ -247,6 +247,10 @@ class CGraph:
         utpm_x_list = []
         for xi in x_list:
             element = numpy.asarray(xi).reshape((1,1) + numpy.shape(xi))
+            if element.dtype.kind in 'iub':
+                # integer input (e.g. a list of ints): propagate in floating point
+                # like the other drivers do
+                element = element.astype(float)
             utpm_x_list.append(algopy.UTPM(element))
 
         self.pushforward(utpm_x_list)
